@@ -44,6 +44,9 @@ type rsCase struct {
 	Closes  []int `json:"closes"` // connections in the order their clients are closed
 	// CloseEarly: the first connection of Closes is closed while calls are still being made
 	CloseEarly bool `json:"close_early"`
+	// CloseAtMs (same length as Closes, optional): each close is made at that time, whatever else is going on
+	// (cases replayed from behaviours of the specification)
+	CloseAtMs []int `json:"close_at_ms,omitempty"`
 }
 
 type rsImpl struct {
@@ -297,7 +300,18 @@ func runRPCSessionCase(c rsCase, tmp string) map[string]interface{} {
 	go writeAll(outW, "out", 'o')
 	go writeAll(errW, "err", 'e')
 	closed := map[int]bool{}
-	if c.CloseEarly && len(c.Closes) > 0 {
+	if len(c.CloseAtMs) == len(c.Closes) && len(c.Closes) > 0 {
+		for i, ci := range c.Closes {
+			closed[ci] = true
+			wg.Add(1)
+			i, ci := i, ci
+			go func() {
+				defer wg.Done()
+				time.Sleep(time.Duration(c.CloseAtMs[i]) * time.Millisecond)
+				guard(func() { closeConn(ci) })
+			}()
+		}
+	} else if c.CloseEarly && len(c.Closes) > 0 {
 		time.Sleep(8 * time.Millisecond)
 		guard(func() { closeConn(c.Closes[0]) })
 		closed[c.Closes[0]] = true
@@ -343,7 +357,7 @@ func runRPCSessionCase(c rsCase, tmp string) map[string]interface{} {
 		}
 	}
 	time.Sleep(20 * time.Millisecond)
-	rec.Log("end", "", 0, 0, map[string]interface{}{"complete": complete && !c.CloseEarly})
+	rec.Log("end", "", 0, 0, map[string]interface{}{"complete": complete && !c.CloseEarly && len(c.CloseAtMs) == 0})
 	var rows []map[string]interface{}
 	for _, e := range rec.Events() {
 		r := map[string]interface{}{"ev": e.Ev, "obj": e.Obj, "a": e.A, "t": e.T, "g": e.G}
